@@ -196,6 +196,13 @@ def make_objects(tier, seed):
     return objs
 
 
+def safe_bytes(o):
+    try:
+        return bytes(o)
+    except Exception as ex:
+        return ('bytes() raises %s' % type(ex).__name__).encode()
+
+
 def load(cls, blob):
     """(object, warnings as strings)"""
     with warnings.catch_warnings(record=True) as w:
@@ -252,7 +259,7 @@ def check_block(desc, label, cls, obj):
         fail('label', 'text does not start / end with the header / tail line')
     try:
         ref, w = load(cls, raw)
-        refbytes = bytes(ref)
+        refbytes = safe_bytes(ref)
     except Exception as ex:
         fail('reload', 'binary load raises %s' % type(ex).__name__)
         refbytes = None
@@ -265,7 +272,7 @@ def check_block(desc, label, cls, obj):
             continue
         if w:
             fail('reload', '%s: warning %r' % (v, w[0][:60]))
-        b2 = bytes(o2)
+        b2 = safe_bytes(o2)
         if b2 != raw:
             fail('reload', '%s: bytes of the reloaded object differ from the binary export' % v)
         elif refbytes is not None and b2 != refbytes:
@@ -315,13 +322,13 @@ def check_corruption(desc, label, cls, obj, nrepl):
                     same = dearmor(t)['payload'] == raw and dearmor(t)['crc'] == crc24(raw)
                 except Exception:
                     same = False
-                if same and bytes(o2) == raw:
+                if same and safe_bytes(o2) == raw:
                     harmless += 1
                     how['accepted: same payload (unused bits of the last quantum)'] += 1
                 else:
                     c = dict(desc)
                     c.update({'clause': 'corruption', 'class': '', 'line': li, 'col': ci, 'was': ch, 'now': r,
-                              'detail': 'accepted silently; reloaded bytes %s' % ('equal' if bytes(o2) == raw else 'differ')})
+                              'detail': 'accepted silently; reloaded bytes %s' % ('equal' if safe_bytes(o2) == raw else 'differ')})
                     fails.append(c)
     return n, harmless, fails, how
 
@@ -364,7 +371,7 @@ def check_nonascii_header():
             case = {'kind': 'message', 'clause': 'nonascii-header', 'class': 'D11', 'header': val, 'form': form}
             try:
                 o2, w = load(pgpy.PGPMessage, blob)
-                if bytes(o2) != raw or o2.ascii_headers.get('Comment') != val:
+                if safe_bytes(o2) != raw or o2.ascii_headers.get('Comment') != val:
                     case['detail'] = 'loaded but differs'
                     fails.append(case)
             except Exception as ex:
@@ -399,7 +406,7 @@ def check_header_probes():
         try:
             o2, w = load(pgpy.PGPMessage, s)
             got = list(o2.ascii_headers.items())
-            if bytes(o2) != raw:
+            if safe_bytes(o2) != raw:
                 fails.append(dict(case, clause='reload', **{'class': 'bytes', 'detail': 'bytes differ'}))
             elif got != hs:
                 cl = 'split-at-last-colon-space' if any(': ' in hv for _, hv in hs) else 'other'
